@@ -12,6 +12,7 @@ import (
 	"path/filepath"
 	"testing"
 
+	"github.com/ipfs/go-cid"
 	mh "github.com/multiformats/go-multihash"
 	"github.com/rpcpool/yellowstone-faithful/indexmeta"
 	"github.com/rpcpool/yellowstone-faithful/zz_verif/cargen"
@@ -118,6 +119,7 @@ func vfC10expectFail(assign map[string]vfC10Src, epochOf map[string]uint64, root
 
 func vfC10eval(c *vfC10Case, st map[string]int) error {
 	dir := vfh.TmpDir("c10")
+	defer vfCloseLeaked(dir) // configurations that are refused leave the files opened before the refusal to the collector
 	defer os.RemoveAll(dir)
 	envs := map[string]*vfEpochEnv{}
 	gens := map[string]*cargen.Epoch{}
@@ -308,9 +310,43 @@ func vfC10eval(c *vfC10Case, st map[string]int) error {
 	}
 	st["configs"] = n
 	// CAR of A with the (self-consistent) indexes of A2 and vice versa: CID fetches fail or return the right bytes
-	for _, pair := range [][2]string{{"A", "A2"}, {"A2", "A"}} {
+	// ... and a CAR with exactly the section layout of A (same offsets and lengths) but other objects: every
+	// payload altered and stored under the CID of the altered bytes. The index offsets of A land on section
+	// boundaries of this file; only the CID comparison tells the two apart.
+	shadow := filepath.Join(dir, "shadow-of-A.car")
+	{
+		raw, err := os.ReadFile(envs["A"].CarPath)
+		if err != nil {
+			return err
+		}
+		for i := range gens["A"].Objects {
+			o := &gens["A"].Objects[i]
+			sec := raw[o.Offset : o.Offset+o.SectionLen]
+			cb := o.Cid.Bytes()
+			at := bytes.Index(sec, cb)
+			if at < 0 || len(o.Data) == 0 {
+				continue
+			}
+			data := sec[at+len(cb):]
+			data[len(data)-1] ^= 0x5a
+			sum, _ := mh.Sum(data, mh.SHA2_256, -1)
+			if nb := cid.NewCidV1(o.Cid.Type(), sum).Bytes(); len(nb) == len(cb) {
+				copy(sec[at:], nb)
+			} else {
+				data[len(data)-1] ^= 0x5a // a CID of another length would move the layout: leave this object as it is
+			}
+		}
+		if err := os.WriteFile(shadow, raw, 0o644); err != nil {
+			return err
+		}
+	}
+	for _, pair := range [][2]string{{"A", "A2"}, {"A2", "A"}, {"shadow", "A"}} {
 		carEnv, idxEnv := pair[0], pair[1]
-		over := map[string]string{"car": envs[carEnv].CarURI}
+		carURI := shadow
+		if carEnv != "shadow" {
+			carURI = envs[carEnv].CarURI
+		}
+		over := map[string]string{"car": carURI}
 		for _, r := range vfC10Roles {
 			over[r] = vfRoleFile(envs[idxEnv], r)
 		}
@@ -323,8 +359,13 @@ func vfC10eval(c *vfC10Case, st map[string]int) error {
 			st["foreign-car-rejected-at-load"]++
 			continue
 		}
-		for i := range gens[idxEnv].Objects {
+		// every object is asked for three times: answers served from the offset cache are judged like the first one
+		for i3 := 0; i3 < 3*len(gens[idxEnv].Objects); i3++ {
+			i := i3 / 3
 			o := &gens[idxEnv].Objects[i]
+			if carEnv == "shadow" {
+				st["same-layout-foreign-car-fetches"]++
+			}
 			var data []byte
 			err, _ := vfh.Catch(func() error {
 				var e error
@@ -355,7 +396,7 @@ func vfC10eval(c *vfC10Case, st map[string]int) error {
 func TestVfC10(t *testing.T) {
 	run := vfh.Begin("C10", "identity")
 	defer run.End(t)
-	run.Require("must-fail", "must-load", "foreign-car-fetches", "field-patch:epoch", "field-patch:root")
+	run.Require("must-fail", "must-load", "foreign-car-fetches", "same-layout-foreign-car-fetches", "field-patch:epoch", "field-patch:root")
 	opts := cargen.DefaultOpts()
 	opts.MaxBlocks = 5
 	opts.BigFrames = false
